@@ -745,9 +745,24 @@ def identity_iter(it, *a, **k):
     return it
 
 
+def vc_map(f, it):
+    if hasattr(it, "length") and not isinstance(it, (list, tuple)):
+        return GhostSeq(it.length(), lambda i: f(it.elem(i)), "comprehension")
+    return [f(x) for x in it]
+
+
+def sb_zip(*its):
+    if any(hasattr(x, "length") and not isinstance(x, (list, tuple)) for x in its):
+        n = sb_min(*[seq_length(x) for x in its]) if len(its) > 1 else seq_length(its[0])
+        z = GhostSeq(n, lambda i: tuple(seq_elem(x, i) for x in its), "zip")
+        z.parts = its
+        return z
+    return zip(*its)
+
+
 SANDBOX_BUILTINS = {
     "range": sb_range, "len": sb_len, "enumerate": sb_enumerate, "min": sb_min, "max": sb_max, "int": sb_int,
-    "float": sb_float, "isinstance": sb_isinstance, "ceil": sb_ceil, "tqdm": identity_iter, "tqdm_notebook": identity_iter,
+    "float": sb_float, "isinstance": sb_isinstance, "ceil": sb_ceil, "tqdm": identity_iter, "tqdm_notebook": identity_iter, "zip": sb_zip, "__vc_map": vc_map,
 }
 
 
@@ -831,6 +846,19 @@ class _Rewriter(ast.NodeTransformer):
         if isinstance(node.func, ast.Name) and node.func.id == "super" and not node.args and self.clsname:
             node.args = [ast.Name(id="__vc_class", ctx=ast.Load()), ast.Name(id="self", ctx=ast.Load())]
         return node
+
+    def visit_ListComp(self, node):
+        """[elt for x in ITER] -> __vc_map(lambda x: elt, ITER): a list when ITER is concrete, a GhostSeq whose i-th
+        element is elt(ITER[i]) when ITER has a symbolic length (the element expression is the original node)."""
+        self.generic_visit(node)
+        if len(node.generators) != 1 or node.generators[0].ifs or node.generators[0].is_async:
+            return node
+        gen = node.generators[0]
+        if not isinstance(gen.target, ast.Name):
+            return node
+        lam = ast.Lambda(args=ast.arguments(posonlyargs=[], args=[ast.arg(arg=gen.target.id)], kwonlyargs=[], kw_defaults=[], defaults=[]),
+                         body=node.elt)
+        return ast.Call(func=ast.Name(id="__vc_map", ctx=ast.Load()), args=[lam, gen.iter], keywords=[])
 
     def visit_For(self, node):
         self.counter += 1          # numbered in source order (pre-order)
